@@ -438,7 +438,7 @@ func runC08(run *Run, replay string) {
 						acceptRoundTrip(run, nsrc, files2, c, sc.Main.Ctx.Functions, m)
 					}
 					for _, t := range ts {
-						if t.RangePtr != nil && t.RangePtr.Start.Byte <= pos.Byte && pos.Byte <= t.RangePtr.End.Byte && len(t.NestedTargets) == 0 && len(ts) == 1 {
+						if t.RangePtr != nil && t.RangePtr.Filename == "main.tf" && t.RangePtr.Start.Byte <= pos.Byte && pos.Byte <= t.RangePtr.End.Byte && len(t.NestedTargets) == 0 && len(ts) == 1 {
 							run.Violate(Violation{Key: "C08/candidate-is-the-attribute-being-edited", Rule: "never the attribute being edited itself", Func: "Reference.CompletionAtPos",
 								Detail: c.Label, Replay: m})
 						}
